@@ -54,6 +54,20 @@ CHECKS['C13'] = dict(
     technique='Lean 4 theorems (omega/case analysis) on generated kernels + hand model; exhaustive model/implementation/spec correspondence',
     design='§5 C13')
 
+CHECKS['C16'] = dict(
+    level='proof',
+    text=('Theorems about Schedule.generate modelled as a pure function generic in calendar adjustment and month '
+          'arithmetic, for every input and any number of periods: a returned schedule is strictly increasing with >= 2 '
+          'dates (else FinError); its first date is the unadjusted effective date; BACKWARD/FORWARD roll dates are whole '
+          'multiples of the period computed from the anchor (no drift); regeneration is a fixed point when the '
+          'termination date is not moved by adjustment, with a kernel-checked counterexample for the full statement '
+          '(known finding C16/regenerate-reanchors). Tie: exact date-by-date correspondence implementation = model on '
+          '>= 7e3 schedules per quick run over all calendars/conventions/rules/flags, acceptance against the '
+          'source-independent ideal roll schedule, and inheritance by swap legs and bonds.'),
+    note=BASE_NOTE + 'The ideal schedule is my reading of the ISDA roll rule; first_dt/next_to_last_dt (documented as unimplemented) are not exercised; the last-date theorem is validated by correspondence only.',
+    technique='Lean 4 induction over the generation loops of a hand model + exact model/implementation correspondence + spec acceptance',
+    design='§5 C16')
+
 NOT_YET = {}
 
 
